@@ -115,6 +115,33 @@ AlgFaceAgg(T, order, row, op, D) == AlgFaceAggFrom(AlgFaceGather(T, order), row,
 \* _apply_node_to_edge_aggregation_numpy: one gather with the whole edge table
 AlgEdgeAgg(E, row, op, D) == [ k \in 1..Len(E) |-> Reduce(op, << row[E[k][1] + 1], row[E[k][2] + 1] >>, D) ]
 
+(* ---- layouts: where the grid dimension sits inside data of rank 1..4 ---------------- *)
+\* A layout is [pos |-> 0-based position of the grid dimension, lead |-> sizes of the OTHER dimensions in
+\* their order].  Data are presented canonically as one node row per flattened index of the other dimensions
+\* (C order); the array handed to the implementation has the node axis inserted at `pos`.  The result must
+\* have the destination dimension at `pos` and, at the C-order offset of (others with element k inserted at
+\* pos), the reduction of that row over element k.
+InsAt(s, p0, x) == SubSeq(s, 1, p0) \o << x >> \o SubSeq(s, p0 + 1, Len(s))
+RemAt(s, p1)    == SubSeq(s, 1, p1 - 1) \o SubSeq(s, p1 + 1, Len(s))                 \* 1-based
+LayoutShape(l, n)  == InsAt(l.lead, l.pos, n)
+InnerSize(l)       == ProdSeq(SubSeq(l.lead, l.pos + 1, Len(l.lead)))                   \* B: product of the sizes after pos
+NRows(l)           == ProdSeq(l.lead)
+\* offset in the C-order flattening of an array of shape LayoutShape(l, n), of canonical row rho (0-based) and
+\* element k (0-based): rho = a * B + b  |->  (a * n + k) * B + b
+FlatOffset(l, n, rho, k) == LET B == InnerSize(l) IN ((rho \div B) * n + k) * B + (rho % B)
+
+\* n-d arrays as functions from index tuples (0-based) - used to model-check the formula above and the
+\* moveaxis / gather / moveaxis-back transcription (AggLayout.tla)
+RECURSIVE IndexTuples(_)
+IndexTuples(shape) == IF shape = << >> THEN { << >> }
+                      ELSE { << i >> \o t : i \in 0..(shape[1] - 1), t \in IndexTuples(Tail(shape)) }
+RECURSIVE COrder(_, _)
+COrder(idx, shape) == IF idx = << >> THEN 0
+                      ELSE idx[1] * ProdSeq(Tail(shape)) + COrder(Tail(idx), Tail(shape))
+\* np.moveaxis(a, src, dst)[MoveTuple(t, src, dst)] = a[t]   (1-based axis positions)
+MoveTuple(t, src, dst) == InsAt(RemAt(t, src), dst - 1, t[src])
+SwapTuple(t, i, j)     == [ t EXCEPT ![i] = t[j], ![j] = t[i] ]
+
 (* ---- laws the reductions themselves must obey (sanity of this oracle) ---------- *)
 ReduceLaws(vals, D) ==
     LET r(op) == Reduce(op, vals, D)
